@@ -17,6 +17,20 @@ Binding B: random planets / pressure ranges / T and mu profiles, n = 1..200, bot
 Binding C: spec/Functional.tla walks (harness/history.py): ONE long-lived model, settings changed
            through model[<fitting parameter>], the full vertical structure after every evaluation
            must equal that of a freshly built model.
+Second round (after seeded changes C11-4..6):
+  * chemistry TABLES: the spec's composition is a table tab[layer][gas] with pairwise distinct
+    entries (MC_Atmosphere action Chemistry, invariant MixAlignedWithLayers; its mu is what the
+    recurrence uses).  Binding A replays every vector through the real ChemistryFile (square case
+    n = number of gases = 3 included); binding B draws file chemistries (2..6 gases, square case
+    forced for small n) and TaurexChemistry + ArrayGas tables and logs a `chem` event.
+  * every public route, every length unit: Planet.calculate_scale_properties(length_units=...) is
+    a second route of the `step` events (HydroStepRelUnit: the relations hold between the RETURNED
+    numbers and the constants expressed in the unit); binding A compares the route with the exact
+    vectors in several units.
+  * evaluation is read-only (MC action Evaluate): binding B re-validates the step obligation on
+    models AFTER model() / model_contrib() / model_full_contrib() (transmission with both path
+    methods, emission); binding C evaluates the long-lived model before reading the structure and
+    compares with a fresh, un-evaluated one.
 """
 import math
 import os
@@ -30,18 +44,24 @@ import numpy as np
 from ..core import Machinery, frac, close, validate_trace
 from ..fx_vertical import (dec, FixedMuChemistry, clear_opacities, register_flat_opacity, layer_len,
                            ln_ratio)
+from ..fx_chemtable import (UNITS, unit_factor, units_consistent, write_table, stated_weights_chemistry_file,
+                            EVAL_OPS, evaluate, add_contributions, tmpfile)
 
 PPB = 100            # relative tolerance of the TLC-side comparison, parts per 1e9 (1e-7)
 REL = 1e-9           # Python-side comparison against TLC's exact rationals (binding A)
 LAYER_KEYS = ['pressure_profile', 'temp_profile', 'density_profile', 'altitude_profile', 'gravity_profile',
               'scaleheight_profile', 'mu_profile', 'active_mix_profile', 'inactive_mix_profile']
+CHEM_CLAUSES = ['chem_wellformed', 'mixing_ratios_aligned_with_layers', 'mu_is_weighted_mean_of_layer']
+GAS_POOL = ['H2', 'He', 'CO2', 'N2', 'CH4']      # besides H2O (the only gas with a registered cross-section)
 STEP_CLAUSES = ['step_entries_present_and_positive', 'altitude_zero_at_surface', 'altitude_strictly_increasing',
                 'dz_is_level_difference', 'dz_is_H_ln_pressure_ratio', 'H_is_kT_over_mu_g', 'g_inverse_square',
                 'density_ideal_gas']
 
 
 def _imports():
-    from taurex.model import TransmissionModel
+    from taurex.model import TransmissionModel, EmissionModel
+    from taurex.data.profiles.chemistry.filechemistry import ChemistryFile
+    from taurex.util import get_molecular_weight
     from taurex.data.planet import Planet
     from taurex.data.stellar import BlackbodyStar
     from taurex.data.profiles.pressure import SimplePressureProfile
@@ -123,11 +143,24 @@ def build_from_vector(v, units, pkind, X):
         pp = array_profile(X, pkind['klass'], [10.0 ** e for e in opt['array']], bool(opt['reverse']),
                            unit=pkind.get('unit', 'Pa'), layout=FILE_LAYOUTS[pkind.get('layout', 0)], tag='vec')
     tp = X['TemperatureArray'](tp_array=[t * T0 for t in v['T']])
-    chem = FixedMuChemistry([m * m0 * C.AMU for m in v['mu']])
+    if pkind == 'simple':
+        # the real ChemistryFile on the spec's table (rows = layers, columns = gases); which column is
+        # the active gas rotates with the vector
+        names = vector_gas_names(v)
+        path = write_table(tmpfile(tmpdir(), 'vec-chem'), [[x / float(v['den']) for x in row] for row in v['tab']])
+        chem = stated_weights_chemistry_file(names, path, {nm: w * m0 * C.AMU for nm, w in zip(names, v['w'])})
+    else:
+        chem = FixedMuChemistry([float(frac(m)) * m0 * C.AMU for m in v['mu']])
     model = X['TransmissionModel'](planet=planet, star=X['BlackbodyStar'](), pressure_profile=pp,
                                    temperature_profile=tp, chemistry=chem)
     model.build()
     return model, gm_si
+
+
+def vector_gas_names(v):
+    base = ['H2O', 'H2', 'He']
+    r = (sum(v['T']) + v['n'] + v['gm'] // 64) % 3
+    return base[r:] + base[:r]
 
 
 def at(a, k):
@@ -169,6 +202,52 @@ def judge_vector(ctx, v, units, pkind, X):
     z = np.asarray(model.altitude_boundaries, dtype=float)
     ctx.verdict('altitude_strictly_increasing', bool(z[0] == 0.0 and np.all(np.diff(z) > 0)), cls=cls0,
                 detail='boundaries %r' % z.tolist(), vector=vec)
+    m0 = units['m0']
+    for k in range(n):
+        cmp('mu_is_weighted_mean_of_layer', 'mu_profile', at(model.chemistry.muProfile, k), float(frac(v['mu'][k])) * m0 * C.AMU, k)
+    if pkind == 'simple':
+        # exposed mixing ratios, gas by gas and layer by layer, against the spec's mix[gas][layer]
+        ch = model.chemistry
+        names = vector_gas_names(v)
+        gen = model.generate_profiles()
+        stored = {}
+        for key, gl in (('active_mix_profile', list(ch.activeGases)), ('inactive_mix_profile', list(ch.inactiveGases))):
+            for idx, nm in enumerate(gl):
+                try:
+                    stored[nm] = gen[key][idx]
+                except Exception:
+                    stored[nm] = None
+        for gi, nm in enumerate(names):
+            try:
+                direct = ch.get_gas_mix_profile(nm)
+            except Exception:
+                direct = None
+            for k in range(n):
+                want = v['mix'][gi][k] / float(v['den'])
+                cmp('mixing_ratios_aligned_with_layers', 'get_gas_mix_profile', at(direct, k), want, k)
+                cmp('mixing_ratios_aligned_with_layers', 'stored_mix_profile', at(stored.get(nm), k), want, k)
+        # the second public route, in several length units: what is RETURNED is the exact structure times u
+        T = np.array([t * T0 for t in v['T']])
+        Pl = np.array([10.0 ** e for e in v['lev']])
+        mu = np.array([float(frac(m)) * m0 * C.AMU for m in v['mu']])
+        j0 = sum(v['T']) + v['n'] + v['lev'][0]
+        for unit in ('m', UNITS[1 + j0 % (len(UNITS) - 1)], UNITS[1 + (j0 + 3) % (len(UNITS) - 1)]):
+            u = unit_factor(unit)
+            try:
+                rz, rH, rg, rdz = model.planet.calculate_scale_properties(T, Pl, mu, length_units=unit)
+            except Exception:
+                rz = rH = rg = rdz = None
+            rname = 'route:%s' % unit
+            for k in range(n + 1):
+                cmp('altitude_recurrence', rname + ':z', at(rz, k), float(frac(v['z'][k])) * R0 * u, k)
+            for k in range(n):
+                cmp('altitude_recurrence', rname + ':dz', at(rdz, k), float(frac(v['z'][k + 1]) - frac(v['z'][k])) * R0 * u, k)
+                cmp('g_inverse_square', rname + ':g', at(rg, k), float(frac(v['g'][k])) * gm_si / (v['gm'] * R0 * R0) * u, k)
+                cmp('H_is_kT_over_mu_g', rname + ':H', at(rH, k), float(frac(v['H'][k])) * R0 / math.log(10.0) * u, k)
+            for name, arr, want in (('z', rz, n + 1), ('dz', rdz, n), ('g', rg, n), ('H', rH, n)):
+                ctx.verdict('one_entry_per_layer', layer_len(arr) == want, cls='%s:%s:%s' % (cls0, rname, name),
+                            detail='%s returned by calculate_scale_properties(length_units=%r) has %d entries, expected %d'
+                                   % (name, unit, layer_len(arr), want), vector=vec)
     lens = observed_lengths(model)
     for src, rec in lens.items():
         for name, want in v['prof'].items():
@@ -221,12 +300,57 @@ def observed_lengths(model):
 
 
 # --------------------------------------------------------------------------- binding B
+def random_chemistry(rng, n, X):
+    """-> (chemistry, declared table).  The declared table is what the USER handed over per layer:
+    decl = dict(kind, names (declared gases, column order), table[layer][column]); its entries are
+    pairwise distinct (random reals), so every misalignment (shift, reversal, transposition of a
+    square table) changes it."""
+    if rng.random() < 0.45:
+        # file chemistry: one row per layer (surface first), one column per gas; square case
+        # (as many gases as layers) forced for about half of the small grids
+        ngas = n if (2 <= n <= 6 and rng.random() < 0.55) else rng.randint(2, 6)
+        names = ['H2O'] + rng.sample(GAS_POOL, ngas - 1)
+        rng.shuffle(names)
+        table = []
+        for k in range(n):
+            raw = [10.0 ** rng.uniform(-3.0, 0.0) for _ in range(ngas)]
+            tot = sum(raw)
+            table.append([x / tot for x in raw])
+        path = write_table(tmpfile(tmpdir(), 'rnd-chem'), table)
+        # what the file says (repr round-trips exactly)
+        return X['ChemistryFile'](gases=list(names), filename=path), dict(kind='file:%s' % ('square' if ngas == n else 'ngas=%d' % ngas),
+                                                                        names=names, table=table)
+    chem = X['TaurexChemistry'](fill_gases=['H2', 'He'], ratio=rng.uniform(0.05, 0.3))
+    cols = {}
+    if rng.random() < 0.3:
+        chem.addGas(X['ConstantGas']('H2O', mix_ratio=10.0 ** rng.uniform(-6, -1)))
+    else:
+        cols['H2O'] = [10.0 ** rng.uniform(-6, -0.4) for _ in range(n)]
+    if rng.random() < 0.6:
+        cols['CO2'] = [10.0 ** rng.uniform(-6, -0.6) for _ in range(n)]
+    if rng.random() < 0.5:
+        chem.addGas(X['ConstantGas']('N2', mix_ratio=10.0 ** rng.uniform(-5, -1)))
+    if rng.random() < 0.3:
+        cols['CH4'] = [10.0 ** rng.uniform(-7, -1.0) for _ in range(n)]
+    for nm, arr in cols.items():
+        chem.addGas(X['ArrayGas'](nm, list(arr)))
+    names = list(cols)
+    return chem, dict(kind='taurex:arraygas=%d%s' % (len(names), ':square' if len(names) == n else ''), names=names,
+                      table=[[cols[nm][k] for nm in names] for k in range(n)])
+
+
+MODEL_KINDS = ['transmission-old-path', 'transmission-new-path', 'emission']
+
+
 def random_model(rng, n, pkind, X):
-    """-> (model, declared, label).  pkind: 'simple' | 'array' | 'history'.
-    declared: what the spec is told about the grid: pmax/pmin (simple: the CURRENT settings) or
-    input/reverse (array and file profiles).  'history' is a simple-grid model whose planet and
-    pressure settings are changed through the public fitting parameters (in random order, with
-    evaluations in between) before it is observed."""
+    """-> (model, declared, label).  pkind: 'simple' | 'array' | 'history' | 'evaluated'.
+    declared: what the spec is told about the case: pmax/pmin (simple: the CURRENT settings) or
+    input/reverse (array and file profiles), the planet, the chemistry table and the length unit of
+    the second route.  'history' is a simple-grid model whose planet and pressure settings are
+    changed through the public fitting parameters (in random order, with evaluations in between)
+    before it is observed; 'evaluated' is a model (transmission with either path method, or
+    emission; one to three contributions) that has been run through its public evaluation entry
+    points before it is observed."""
     C = X['C']
     tstyle = rng.random()
     if tstyle < 0.3:
@@ -242,26 +366,19 @@ def random_model(rng, n, pkind, X):
             radius_m = rng.uniform(0.05, 2.0) * C.RJUP
         lmax, lmin = rng.uniform(3.0, 7.0), rng.uniform(-6.0, 1.0)
         span = (lmax - lmin) * math.log(10.0)
-        # planet mass from a chosen surface scale height (mu ~ 2.3..15 amu): keeps the atmosphere finite
+        # planet mass from a chosen surface scale height (mu >= 2 amu): keeps the atmosphere finite
         h_over_r = 10.0 ** rng.uniform(-4.0, math.log10(0.5 / span))
         mass_kg = C.KBOLTZ * max(T) * radius_m / (2.0 * C.AMU * C.G * h_over_r)
         return dict(radius=radius_m / C.RJUP, mass=mass_kg / C.MJUP, lmax=lmax, lmin=lmin)
     cfg = draw()
     planet = X['Planet'](planet_mass=cfg['mass'], planet_radius=cfg['radius'])
-    chem = X['TaurexChemistry'](fill_gases=['H2', 'He'], ratio=rng.uniform(0.05, 0.3))
-    mstyle = rng.random()
-    if mstyle < 0.3:
-        chem.addGas(X['ConstantGas']('H2O', mix_ratio=10.0 ** rng.uniform(-6, -1)))
-    else:
-        chem.addGas(X['ArrayGas']('H2O', [10.0 ** rng.uniform(-6, -0.4) for _ in range(n)]))
-    if rng.random() < 0.6:
-        chem.addGas(X['ArrayGas']('CO2', [10.0 ** rng.uniform(-6, -0.6) for _ in range(n)]))
-    if rng.random() < 0.5:
-        chem.addGas(X['ConstantGas']('N2', mix_ratio=10.0 ** rng.uniform(-5, -1)))
+    chem, decl = random_chemistry(rng, n, X)
     tp = X['TemperatureArray'](tp_array=T)
     lmax, lmin = cfg['lmax'], cfg['lmin']
-    declared = dict(input=[], reverse=False, radius=cfg['radius'], mass=cfg['mass'])   # the settings as the user made them
-    if pkind in ('simple', 'history'):
+    grid = 'array' if (pkind == 'array' or (pkind == 'evaluated' and n >= 2 and rng.random() < 0.35)) else 'simple'
+    declared = dict(input=[], reverse=False, radius=cfg['radius'], mass=cfg['mass'],   # the settings as the user made them
+                    grid=grid, chem=decl, unit=rng.choice(UNITS))
+    if grid == 'simple':
         pp = X['SimplePressureProfile'](n, 10.0 ** lmin, 10.0 ** lmax)
         declared.update(pmax=10.0 ** lmax, pmin=10.0 ** lmin)
         label = 'simple'
@@ -281,8 +398,16 @@ def random_model(rng, n, pkind, X):
         pp = array_profile(X, klass, given, opt['reverse'], unit=unit, layout=rng.choice(FILE_LAYOUTS), tag='rnd')
         declared.update(input=given, reverse=opt['reverse'])
         label = option_label(klass, opt, unit)
-    model = X['TransmissionModel'](planet=planet, star=X['BlackbodyStar'](), pressure_profile=pp,
-                                   temperature_profile=tp, chemistry=chem)
+    mkind = rng.choice(MODEL_KINDS) if pkind == 'evaluated' else 'transmission-old-path'
+    common = dict(planet=planet, star=X['BlackbodyStar'](), pressure_profile=pp, temperature_profile=tp, chemistry=chem)
+    if mkind == 'emission':
+        model = X['EmissionModel'](ngauss=rng.choice([2, 4]), **common)
+    else:
+        model = X['TransmissionModel'](new_path_method=(mkind == 'transmission-new-path'), **common)
+    if pkind == 'evaluated':
+        which = ['absorption'] + [w for w in ('rayleigh', 'clouds') if rng.random() < 0.6]
+        rng.shuffle(which)
+        add_contributions(model, which, 10.0 ** rng.uniform(lmin, lmax))
     model.build()
     if pkind == 'history':
         # a second configuration; the radius stays within a factor 1.4 so that the intermediate
@@ -299,7 +424,82 @@ def random_model(rng, n, pkind, X):
             declared[dict(atm_max_pressure='pmax', atm_min_pressure='pmin', planet_radius='radius', planet_mass='mass')[name]] = value
         model.initialize_profiles()
         label = 'simple:after-history:' + '+'.join(sorted(nm for nm, _ in todo))
+    if pkind == 'evaluated':
+        # the structure is read AFTER the public evaluation entry points have run (no re-initialisation
+        # by the harness in between: evaluation may only read the structure)
+        ops = [rng.choice(EVAL_OPS) for _ in range(rng.randint(1, 3))]
+        for op in ops:
+            evaluate(model, op)
+        label = '%s:after-evaluation:%s:%s:%s' % (label, mkind, '+'.join(which), '+'.join(ops))
     return model, declared, label
+
+
+def chem_event(model, mid, n, decl, X):
+    """The composition as exposed (generate_profiles(); an entry that differs from the attribute or
+    from get_gas_mix_profile() is logged as absent) next to the table the user handed over."""
+    ch = model.chemistry
+    active, inactive = list(ch.activeGases), list(ch.inactiveGases)
+    names = active + inactive
+    gen = model.generate_profiles()
+    mix = []
+    for idx, nm in enumerate(names):
+        key, j = ('active_mix_profile', idx) if idx < len(active) else ('inactive_mix_profile', idx - len(active))
+        try:
+            stored = np.asarray(gen[key][j], dtype=float)
+            attr = np.asarray((ch.activeGasMixProfile if idx < len(active) else ch.inactiveGasMixProfile)[j], dtype=float)
+            direct = np.asarray(ch.get_gas_mix_profile(nm), dtype=float)
+            row = [float(stored[k]) if (at(attr, k) == float(stored[k]) and at(direct, k) == float(stored[k])) else None
+                   for k in range(stored.shape[0])]
+        except Exception:
+            row = []
+        mix.append(row)
+    mu = gen.get('mu_profile')
+    mus = [at(mu, k) if at(mu, k) == at(ch.muProfile, k) else None for k in range(layer_len(mu) if layer_len(mu) > 0 else 0)]
+    # the step obligation and the alignment are local: for long grids a fixed sample of layers is logged
+    keep = list(range(n)) if n <= 60 else sorted(set([0, 1, 2, n - 3, n - 2, n - 1] + list(range(3, n - 3, max(1, n // 50)))))
+    full = all(len(r) == n for r in mix) and len(mus) == n
+    if not full or len(keep) == n:
+        keep = list(range(n))
+        sel = lambda r: list(r)
+    else:
+        sel = lambda r: [r[k] for k in keep]
+    e = dict(ev='chem', id='%s:chem' % mid, n=len(keep), ppb=PPB, kind=decl['kind'],
+             names=names, mix=[[dec(x) for x in sel(r)] for r in mix],
+             w=[dec(float(X['get_molecular_weight'](nm))) for nm in names],
+             mu=[dec(x) for x in sel(mus)],
+             tab=[[dec(x) for x in decl['table'][k]] for k in keep],
+             col=[(names.index(nm) + 1) if nm in names else 0 for nm in decl['names']])
+    return e
+
+
+def route_events(model, mid, n, declared, lev, X):
+    """The second public route to the vertical structure: Planet.calculate_scale_properties on the
+    model's own T, levels and mu, asked for the declared length unit.  One step event per layer
+    (a fixed sample of layers for long grids) + the lengths of what is returned."""
+    C = X['C']
+    unit = declared['unit']
+    u = unit_factor(unit)
+    T = np.asarray(model.temperatureProfile, dtype=float)
+    mu = np.asarray(model.chemistry.muProfile, dtype=float)
+    try:
+        rz, rH, rg, rdz = model.planet.calculate_scale_properties(T, np.asarray(lev, dtype=float), mu, length_units=unit)
+    except Exception:
+        rz = rH = rg = rdz = None
+    keep = list(range(n)) if n <= 24 else sorted(set([0, 1, 2, n - 2, n - 1] + list(range(3, n - 2, max(1, n // 18)))))
+    ev, floats = [], []
+    for i in keep:
+        lr = ln_ratio(lev[i], lev[i + 1]) if (len(lev) == n + 1 and lev[i] > 0 and lev[i + 1] > 0 and lev[i] > lev[i + 1]) else None
+        vals = dict(z0=at(rz, i), z1=at(rz, i + 1), dz=at(rdz, i), H=at(rH, i), g=at(rg, i), T=at(T, i), mu=at(mu, i), Lr=lr,
+                    rho=None, P=None, rad=float(declared['radius'] * C.RJUP),
+                    gm=float(C.G * declared['mass'] * C.MJUP), kB=float(C.KBOLTZ), u=u)
+        d = dict(ev='step', id='%s:route:%s:step:%d' % (mid, unit, i), i=i, n=n, ppb=PPB, route='planet')
+        d.update({k: dec(x) for k, x in vals.items()})
+        ev.append(d)
+        floats.append(vals)
+    ev.append(dict(ev='profiles', id='%s:profiles:route:%s' % (mid, unit), n=n, src='calculate_scale_properties',
+                   lens=dict(altitude_boundaries=layer_len(rz), scaleheight_profile=layer_len(rH),
+                             gravity_profile=layer_len(rg), deltaz=layer_len(rdz))))
+    return ev, floats
 
 
 def events_of(model, mid, pkind, declared, X):
@@ -310,7 +510,7 @@ def events_of(model, mid, pkind, declared, X):
     lev = np.asarray(model.pressure.pressure_profile_levels, dtype=float)
     lay = np.asarray(model.pressureProfile, dtype=float)
     ev = []
-    e = dict(ev='levels', id='%s:levels' % mid, n=n, kind='simple' if pkind in ('simple', 'history') else 'array', ppb=PPB,
+    e = dict(ev='levels', id='%s:levels' % mid, n=n, kind=declared['grid'], ppb=PPB,
              lev=[dec(x) for x in lev], lay=[dec(x) for x in lay],
              input=[dec(x) for x in declared['input']], reverse=bool(declared['reverse']))
     if e['kind'] == 'simple':
@@ -326,28 +526,36 @@ def events_of(model, mid, pkind, declared, X):
         vals = dict(z0=at(za, i), z1=at(zb, i + 1), dz=at(model.deltaz, i), H=at(gen.get('scaleheight_profile'), i),
                     g=at(gen.get('gravity_profile'), i), T=at(model.temperatureProfile, i), mu=at(mu, i), Lr=lr,
                     rho=at(model.densityProfile, i), P=at(lay, i), rad=float(declared['radius'] * C.RJUP),
-                    gm=float(C.G * declared['mass'] * C.MJUP), kB=float(C.KBOLTZ))
-        # the attribute and the stored dictionary must agree entry by entry (same array)
+                    gm=float(C.G * declared['mass'] * C.MJUP), kB=float(C.KBOLTZ), u=1.0)
+        # the attribute and the stored dictionary must agree entry by entry (same array); the altitude of
+        # layer i is boundary i, in the stored dictionary too
         if at(model.scaleheight_profile, i) != vals['H'] or at(model.gravity_profile, i) != vals['g']:
             vals['H'] = None
-        d = dict(ev='step', id='%s:step:%d' % (mid, i), i=i, n=n, ppb=PPB)
+        if at(zb, i) != vals['z0'] or at(gen.get('altitude_profile'), i) != vals['z0']:
+            vals['z0'] = None
+        d = dict(ev='step', id='%s:step:%d' % (mid, i), i=i, n=n, ppb=PPB, route='model')
         d.update({k: dec(x) for k, x in vals.items()})
         ev.append(d)
         floats.append(vals)
     for src, rec in observed_lengths(model).items():
         ev.append(dict(ev='profiles', id='%s:profiles:%s' % (mid, src), n=n, src=src, lens=rec))
-    return ev, floats
+    ev.append(chem_event(model, mid, n, declared['chem'], X))
+    rev, rfloats = route_events(model, mid, n, declared, lev, X)
+    return ev + rev, floats + rfloats
 
 
-def float_step_ok(v):
-    """Python-side 1e-9 evaluation of the same step relations on the raw floats."""
+def float_step_ok(v, route='model'):
+    """Python-side 1e-9 evaluation of the same step relations on the raw floats (constants in the
+    length unit of the route: R u, GM u^3, k_B u^2)."""
     try:
-        if any(v[k] is None for k in v):
+        if any(v[k] is None for k in v if route == 'model' or k not in ('rho', 'P')):
             return False
-        r = v['rad'] + v['z0']
+        u = v['u']
+        r = v['rad'] * u + v['z0']
         return (close(v['z1'], v['z0'] + v['dz'], rel=REL) and close(v['dz'], v['H'] * v['Lr'], rel=REL)
-                and close(v['H'] * v['mu'] * v['g'], v['kB'] * v['T'], rel=REL)
-                and close(v['g'] * r * r, v['gm'], rel=REL) and close(v['rho'] * v['kB'] * v['T'], v['P'], rel=REL)
+                and close(v['H'] * v['mu'] * v['g'], v['kB'] * u * u * v['T'], rel=REL)
+                and close(v['g'] * r * r, v['gm'] * u * u * u, rel=REL)
+                and (route != 'model' or close(v['rho'] * v['kB'] * v['T'], v['P'], rel=REL))
                 and v['z1'] > v['z0'])
     except Exception:
         return False
@@ -378,6 +586,8 @@ def run_traces(ctx, X):
         kinds = ['simple'] if n < 2 else (['simple', 'array'] if rng.random() < 0.6 else [rng.choice(['simple', 'array'])])
         if rng.random() < 0.35:
             kinds.append('history')
+        if rng.random() < 0.5:
+            kinds.append('evaluated')
         for pkind in kinds:
             sub = rng.getrandbits(48)
             model, declared, label = random_model(random.Random(sub), n, pkind, X)
@@ -394,8 +604,10 @@ def run_traces(ctx, X):
                 if e['ev'] != 'step':
                     meta[e['id']] = (label, n, None, recipe)
             events += ev
-            short = 'simple:after-history' if pkind == 'history' else label
+            short = 'simple:after-history' if pkind == 'history' else (':'.join(label.split(':after-evaluation:')[0:1] + ['after-evaluation', label.split(':after-evaluation:')[1].split(':')[0]]) if pkind == 'evaluated' else label)
             labels[short] = labels.get(short, 0) + 1
+            for extra in ('chem:' + declared['chem']['kind'].split(':ngas')[0], 'route-unit:' + declared['unit']):
+                labels[extra] = labels.get(extra, 0) + 1
     if nmodels < 20:
         raise Machinery('too few models generated')
     nbad_total = 0
@@ -418,13 +630,25 @@ def run_traces(ctx, X):
                                 vector=dict(recipe, event=e if n <= 12 else dict(id=e['id'], n=n)))
             elif e['ev'] == 'step':
                 top = ':top-layer' if e['i'] == n - 1 else ''
-                absent = ':entry-absent' if any(e[k][0] < 0 for k in ('H', 'g', 'z0', 'z1', 'dz', 'rho', 'mu', 'T')) else ''
+                model_route = e['route'] == 'model'
+                fields = ('H', 'g', 'z0', 'z1', 'dz', 'rho', 'mu', 'T') if model_route else ('H', 'g', 'z0', 'z1', 'dz', 'mu', 'T')
+                absent = ':entry-absent' if any(e[k][0] < 0 for k in fields) else ''
+                where = 'trace:step' if model_route else 'trace:%s:step' % ':'.join(e['id'].split(':')[1:3])
                 for c in STEP_CLAUSES:
-                    ctx.verdict(c, c not in why, cls='%s:trace:step%s%s' % (pkind, top, absent),
+                    if c == 'density_ideal_gas' and not model_route:
+                        continue
+                    ctx.verdict(c, c not in why, cls='%s:%s%s%s' % (pkind, where, top, absent),
                                 detail='TLC rejected %s (n=%d): %s' % (e['id'], n, sorted(why)), vector=dict(recipe, event=e))
                 present = not absent
-                ctx.verdict('step_relations_float_1e-9', (not present) or float_step_ok(f),
-                            cls='%s:float:step%s' % (pkind, top), detail='raw floats %r' % (f,), vector=dict(recipe, event=e))
+                ctx.verdict('step_relations_float_1e-9', (not present) or float_step_ok(f, e['route']),
+                            cls='%s:%s%s' % (pkind, where.replace('trace', 'float'), top), detail='raw floats %r' % (f,), vector=dict(recipe, event=e))
+            elif e['ev'] == 'chem':
+                if 'input_table_not_distinct' in why:
+                    raise Machinery('the harness declared a chemistry table with repeated entries: %s' % e['id'])
+                for c in CHEM_CLAUSES:
+                    ctx.verdict(c, c not in why, cls='%s:trace:chem:%s' % (pkind, e['kind']),
+                                detail='TLC rejected %s (n=%d, gases %s, declared columns %s): %s' % (e['id'], n, e['names'], e['col'], sorted(why)),
+                                vector=dict(recipe, event=e if n <= 12 else dict(id=e['id'], n=n, kind=e['kind'])))
             else:
                 wrong = sorted(badids[e['id']].get('wrong', [])) if e['id'] in badids else []
                 ctx.verdict('one_entry_per_layer', 'one_entry_per_layer' not in why,
@@ -435,8 +659,10 @@ def run_traces(ctx, X):
     ctx.note('binding B: %d models, %d events (%d step events); by input class: %s'
              % (nmodels, len(events), sum(1 for e in events if e['ev'] == 'step'),
                 ', '.join('%s=%d' % kv for kv in sorted(labels.items()))))
-    need = ['simple', 'simple:after-history', 'array:surface-first', 'array:top-first+reverse', 'file:surface-first', 'file:top-first+reverse']
+    need = ['simple', 'simple:after-history', 'array:surface-first', 'array:top-first+reverse', 'file:surface-first', 'file:top-first+reverse',
+            'chem:file:square', 'chem:file', 'chem:taurex', 'route-unit:km', 'route-unit:cm', 'route-unit:Rjup']
     missing = [k for k in need if not any(lb.startswith(k) for lb in labels)]
+    missing += ['after-evaluation:' + mk for mk in MODEL_KINDS if not any(lb.endswith('after-evaluation:' + mk) for lb in labels)]
     if missing:
         raise Machinery('input classes never generated: %r' % missing)
     ctx.add_sample(dict(trace_event=next(e for e in events if e['ev'] == 'step')))
@@ -476,6 +702,32 @@ def run_canaries(events, allbad):
         want += ['canary-orientation', 'canary-levels-reversed']
     elif not allbad:
         raise Machinery('no array-profile event available for the canaries')
+    # second route: the unit factor of a non-metre event replaced by that of metres
+    routes = [e for e in events if e['ev'] == 'step' and e['route'] == 'planet' and e['i'] >= 1 and ':route:m:' not in e['id']
+              and all(e[k][0] > 0 for k in ('H', 'g', 'z0', 'z1', 'dz', 'mu', 'T'))]
+    if routes:
+        a = dict(routes[len(routes) // 2]); a['u'] = dec(1.0); a['id'] = 'canary-unit'; can.append(a)
+        want.append('canary-unit')
+        g = dict(routes[len(routes) // 2]); g['id'] = 'canary-route-good'; can.append(g)
+    elif not allbad:
+        raise Machinery('no second-route event available for the canaries')
+    # chemistry: two layers of one declared gas swapped; mu of one layer changed; a square table transposed
+    chems = [e for e in events if e['ev'] == 'chem' and e['n'] >= 2 and len(e['col']) >= 1 and all(c >= 1 for c in e['col'])]
+    if chems:
+        a = dict(chems[0]); a['mix'] = [list(r) for r in a['mix']]
+        r = a['mix'][a['col'][0] - 1]; r[0], r[1] = r[1], r[0]; a['id'] = 'canary-chem-shift'; can.append(a)
+        b = dict(chems[-1]); b['mu'] = [list(x) for x in b['mu']]; b['mu'][0][0] += 3000; b['id'] = 'canary-chem-mu'; can.append(b)
+        g = dict(chems[0]); g['id'] = 'canary-chem-good'; can.append(g)
+        want += ['canary-chem-shift', 'canary-chem-mu']
+        sq = [e for e in chems if len(e['col']) == e['n']]
+        if sq:
+            t = dict(sq[0]); t['tab'] = [[t['tab'][k][j] for k in range(t['n'])] for j in range(t['n'])]
+            t['id'] = 'canary-chem-transposed'; can.append(t)
+            want.append('canary-chem-transposed')
+        elif not allbad:
+            raise Machinery('no square chemistry table available for the canaries')
+    elif not allbad:
+        raise Machinery('no chemistry event available for the canaries')
     if not can:
         return
     ok, bad, res = validate_trace('Trace_Atmosphere', 'Trace_Atmosphere.cfg', can)
@@ -501,36 +753,57 @@ def history_scenarios(X):
     C = X['C']
 
     class OneModel(history.Scenario):
-        """ONE long-lived TransmissionModel; settings through model[<fitting parameter>]."""
+        """ONE long-lived forward model; settings through model[<fitting parameter>].  An object
+        whose settings were changed through the API, or that has been observed before, is
+        EVALUATED (model(), model_contrib(), ... in turn) before its structure is read, without any
+        re-initialisation by the harness in between; a freshly built object (the reference of every
+        evaluation of the walk) is only initialised, never evaluated.  So every observation states:
+        the structure exposed after evaluation = the structure of a fresh, un-evaluated model."""
 
-        def __init__(self, name, params, dims, n, base):
+        def __init__(self, name, params, dims, n, base, mkind='transmission-old-path', contributions=('absorption', 'rayleigh')):
             self.name, self.params, self.dims, self.n, self.base = name, params, dims, n, base
+            self.mkind, self.contributions = mkind, list(contributions)
 
         def fresh(self, v):
             c = dict(self.base)
             c.update(dict(zip(self.params, v)))
             chem = X['TaurexChemistry'](fill_gases=['H2', 'He'], ratio=0.17)
             chem.addGas(X['ConstantGas']('H2O', mix_ratio=1e-3))
-            m = X['TransmissionModel'](planet=X['Planet'](planet_mass=c['planet_mass'], planet_radius=c['planet_radius']),
-                                       star=X['BlackbodyStar'](), temperature_profile=X['Isothermal'](T=c['T']),
-                                       chemistry=chem, nlayers=self.n, atm_min_pressure=c['atm_min_pressure'],
-                                       atm_max_pressure=c['atm_max_pressure'])
+            common = dict(planet=X['Planet'](planet_mass=c['planet_mass'], planet_radius=c['planet_radius']),
+                          star=X['BlackbodyStar'](), temperature_profile=X['Isothermal'](T=c['T']),
+                          chemistry=chem, nlayers=self.n, atm_min_pressure=c['atm_min_pressure'],
+                          atm_max_pressure=c['atm_max_pressure'])
+            if self.mkind == 'emission':
+                m = X['EmissionModel'](ngauss=4, **common)
+            else:
+                m = X['TransmissionModel'](new_path_method=(self.mkind == 'transmission-new-path'), **common)
+            add_contributions(m, self.contributions, 1e2)
             m.build()
+            m._c11_changed, m._c11_observed = False, 0
             return m
 
         def set(self, m, d, value, values):
             m[self.params[d]] = value
+            m._c11_changed = True
 
         def observe(self, m):
-            m.initialize_profiles()
+            if m._c11_changed or m._c11_observed:
+                evaluate(m, EVAL_OPS[(m._c11_observed + self.n) % len(EVAL_OPS)])
+            else:
+                m.initialize_profiles()
+            m._c11_observed += 1
             return structure(m, C)
 
     base = dict(planet_mass=1.0, planet_radius=1.0, T=1200.0, atm_min_pressure=1e-1, atm_max_pressure=1e6)
-    return [OneModel('planet', ['planet_radius', 'planet_mass', 'T'], [[0.7, 1.0, 1.35], [0.6, 1.0, 2.2], [700.0, 1200.0, 1900.0]], 9, base),
+    return [OneModel('planet', ['planet_radius', 'planet_mass', 'T'], [[0.7, 1.0, 1.35], [0.6, 1.0, 2.2], [700.0, 1200.0, 1900.0]], 9, base,
+                     mkind='transmission-new-path', contributions=('absorption', 'rayleigh', 'clouds')),
             OneModel('grid', ['atm_max_pressure', 'atm_min_pressure', 'planet_radius'],
-                     [[1e4, 1e5, 1e7], [1e-3, 1e-1, 5.0], [0.8, 1.0, 1.2]], 6, base),
+                     [[1e4, 1e5, 1e7], [1e-3, 1e-1, 5.0], [0.8, 1.0, 1.2]], 6, base, mkind='transmission-old-path'),
             OneModel('one-layer', ['atm_max_pressure', 'planet_radius', 'planet_mass'],
-                     [[1e3, 1e5, 1e6], [0.9, 1.0, 1.5], [0.5, 1.0, 1.6]], 1, base)]
+                     [[1e3, 1e5, 1e6], [0.9, 1.0, 1.5], [0.5, 1.0, 1.6]], 1, base, mkind='transmission-new-path',
+                     contributions=('rayleigh', 'absorption')),
+            OneModel('emission', ['T', 'planet_mass', 'atm_min_pressure'],
+                     [[800.0, 1200.0, 2000.0], [0.6, 1.0, 2.2], [1e-2, 1e-1, 1.0]], 7, base, mkind='emission')]
 
 
 def replay_history(ctx, v, X):
@@ -565,19 +838,36 @@ def run(ctx):
     ctx.bounds = dict(tier=ctx.tier,
                       exhaustive='n<=3 layers, integer log10 level exponents (spacing 2 or 4), T in {1,2,3}, mu in {1,2}, rad 8, GM in {64,128} (exact rationals)',
                       vectors='every exported grid through SimplePressureProfile and (n>=2) Array/FilePressureProfile in the spec\'s input options (surface first; top first + reverse), two unit maps',
-                      traces='n in 1..200, random planets (H0/R 1e-4..~0.03), pressure ranges 1e-6..1e7 Pa, random T (200..3000 K) and mu (ArrayGas) profiles')
+                      traces='n in 1..200, random planets (H0/R 1e-4..~0.03), pressure ranges 1e-6..1e7 Pa, random T (200..3000 K); composition from ChemistryFile tables (2..6 gases, square tables included) or TaurexChemistry with ArrayGas/ConstantGas; second route Planet.calculate_scale_properties in %s; models observed as built, after a settings history, or after evaluation (%s)' % ('/'.join(UNITS), ', '.join(MODEL_KINDS)))
     ctx.assumptions = ['ln(P_i/P_{i+1}) is evaluated by the harness (math.log) from the exposed levels',
                        'physical constants (k_B, G, amu) are those of taurex.constants; planet mass/radius are read in SI from the Planet object',
                        'TLC + CommunityModules Json/IOUtils; spec/Dec.tla decimal arithmetic',
                        'FixedMuChemistry double supplies exact small mu values in binding A; binding B uses the real TaurexChemistry',
                        'array / file pressure profiles: layer pressures decreasing in the declared orientation with neighbouring log steps within a factor 1.8, n>=2; the two options that expose the layers top first are outside the quantifier',
-                       'history walks: settings changed through model[<fitting parameter>], observed after initialize_profiles(); reference = freshly built model']
+                       'history walks: settings changed through model[<fitting parameter>]; the long-lived model is evaluated (model / model_contrib / model_full_contrib in turn) before its structure is read; reference = freshly built, un-evaluated model after initialize_profiles()',
+                       'molecular masses are those of taurex.util.get_molecular_weight (how mu is computed is C10); binding A states the masses of the spec vector to the real ChemistryFile',
+                       'metres per length unit: IAU nominal values, cross-checked against astropy',
+                       'the declared chemistry tables have pairwise distinct entries (checked by TLC on every chem event); ArrayGas arrays have one entry per layer',
+                       'second-route and chem events of grids longer than 24 / 60 layers log a fixed sample of layers (the obligations are local)']
     tier = ctx.tier
-    ctx.check_spec('exhaustive', 'MC_Atmosphere', 'MC_Atmosphere_%s.cfg' % tier, need_actions=('Levels', 'Step', 'Profiles'))
-    ctx.expect_refuted('droplast-refuted', 'MC_Atmosphere', 'MC_Atmosphere_droplast.cfg', 'OneEntryPerLayer')
+    # the design-level TLC runs are independent processes: run them side by side while taurex is imported
+    with ThreadPoolExecutor(max_workers=6) as ex:
+        jobs = [ex.submit(ctx.check_spec, 'exhaustive', 'MC_Atmosphere', 'MC_Atmosphere_%s.cfg' % tier,
+                          need_actions=('Levels', 'Chemistry', 'Step', 'Profiles', 'Evaluate'), workers=6),
+                ex.submit(ctx.check_spec, 'export', 'MC_Atmosphere', 'EX_Atmosphere.cfg', workers=1)]
+        # non-vacuity: each modelled defect (top layer dropped; square table kept un-transposed; unit
+        # conversion inside the recurrence; in-place z += dz/2 during evaluation) is refuted by TLC
+        for label, cfg, inv in (('droplast-refuted', 'MC_Atmosphere_droplast.cfg', 'OneEntryPerLayer'),
+                                ('transposed-refuted', 'MC_Atmosphere_transposed.cfg', 'MixAlignedWithLayers'),
+                                ('unitloop-refuted', 'MC_Atmosphere_unitloop.cfg', 'StepRelationAnyUnit'),
+                                ('inplace-refuted', 'MC_Atmosphere_inplace.cfg', 'EvaluationKeepsStructure')):
+            jobs.append(ex.submit(ctx.expect_refuted, label, 'MC_Atmosphere', cfg, inv, workers=2))
+        X = setup()
+        if not units_consistent():
+            raise Machinery('the harness table of length units disagrees with astropy')
+        results = [j.result() for j in jobs]
     ctx.exhaustive = True
-    X = setup()
-    res = ctx.check_spec('export', 'MC_Atmosphere', 'EX_Atmosphere.cfg', workers=1)
+    res = results[1]
     vecs = res.tagged('VEC')
     if q:
         rng = random.Random(ctx.seed)
@@ -593,7 +883,7 @@ def run(ctx):
         cleanup_tmp()
     from .. import history
     nh = history.run_history(ctx, history_scenarios(X), 8 if q else 60)
-    ctx.note('binding C: %d history walks on long-lived models (planet / grid / one-layer settings)' % nh)
+    ctx.note('binding C: %d history walks on long-lived models (planet / grid / one-layer / emission settings), every model evaluated before its structure is read' % nh)
 
 
 def replay(ctx, violations):
